@@ -15,6 +15,8 @@
 //!   failflush <k>                         flush whose k-th backend write returns an error; go on in memory
 //!   reload                                load what the store holds, go on with it
 //!   compact                               compact_buckets
+//!   legacy                                the store re-written in the pre-manifest layout (objects at generation 0,
+//!                                         metadata without a manifest) is loaded: the legacy probe of load_buckets
 //! params ::= def | <k1 bits hex>/<b bits hex>
 //!
 //! The model is sent derived lines (see lean/AndaVerif/Drv/C11.lean): words are replaced by the
@@ -23,7 +25,7 @@
 
 use crate::conc::{COp, Workload, new_index, next_prefix, run_probe, run_threads};
 use crate::query::{Tree, ast_line, read_tree};
-use crate::store::{MemStore, W, decode_bucket, decode_meta};
+use crate::store::{MemStore, W, decode_bucket, decode_meta, to_legacy};
 use anda_db_tfs::{BM25Config, BM25Index, BM25Params, BucketObject, QueryType, TokenizerChain, collect_tokens, default_tokenizer};
 use std::cell::RefCell;
 use std::collections::{BTreeMap, BTreeSet};
@@ -493,6 +495,35 @@ impl<'m> World<'m> {
                         self.sync_model_after_load(&what);
                     }
                     Err(e) => self.oracle("load-error", &what, "load succeeds".into(), e),
+                }
+            }
+            "legacy" => {
+                let Some(ls) = to_legacy(&self.store.clone()) else { return };
+                self.hit("legacy-load");
+                let mut expect = self.committed.clone();
+                expect.on_load();
+                match self.load(&ls) {
+                    Ok(ix) => {
+                        let got = self.battery_answers(&ix);
+                        self.judge("legacy-load", &what, "", got, &expect);
+                        // the model loads the same durable state through the legacy branch of `referenced`
+                        let imp = self.loaded_line(&ix);
+                        if self.model.is_some() && !self.stop {
+                            let mut lines: Vec<String> = vec!["dreset".into()];
+                            for ((b, g), bytes) in &ls.objs {
+                                lines.push(format!("dobj {b} {g} {}", self.payload_text(bytes)));
+                            }
+                            if let Some(m) = ls.meta.as_ref().and_then(|m| decode_meta(m)) {
+                                lines.push(format!("dmeta {} {} {}", m.version, m.max_bucket_id, dash(join(m.manifest.iter().map(|(b, g)| format!("{b}:{g}")), ","))));
+                            }
+                            lines.push("wreset".into());
+                            for l in lines {
+                                self.corr(&what, &l, "ok");
+                            }
+                            self.corr(&what, "loadprefix 0", &imp);
+                        }
+                    }
+                    Err(e) => self.oracle("legacy-load", &what, "load succeeds".into(), e),
                 }
             }
             "compact" => {
